@@ -2,7 +2,7 @@
 EXTENDS Lifecycle
 \* the code as it stands in /repo (every as-is behaviour switched on)
 AsIs == {"syncOpenNoWake", "pingSelfJoin", "sendNoFinally", "sendReread", "dispReread", "closeReread",
-         "errReread", "staleFetcher", "errStateRace", "errInSender", "openReread", "dispStalePk"}
+         "errReread", "staleFetcher", "errStateRace", "errInSender", "openReread", "dispStalePk", "updDoubleRelease"}
 Repaired == {}
 AllFaults == {"sender", "driver", "cf1", "cf2"}
 LinkFaults == {"sender", "driver"}
@@ -18,4 +18,5 @@ Bug_staleFetcher == {"staleFetcher"}
 Bug_errStateRace == {"errStateRace"}
 Bug_openReread == {"openReread"}
 Bug_dispStalePk == {"dispStalePk"}
+Bug_updDoubleRelease == {"updDoubleRelease"}
 ====
